@@ -1,5 +1,6 @@
 import JediModel.Proto
 import JediModel.Model.Refs
+import JediModel.Model.RefsGlobal
 import JediModel.Lemmas.RefsSound
 import JediModel.Model.KwBind
 import JediModel.Gen.C05
@@ -27,7 +28,15 @@ def handle (j : Json) : Json :=
     let p := parseProg j
     let n := p.occs.length
     jobj [
-      ("refs", jarr ((List.range n).map fun i => jarr ((refs p i).map jnat))),
+      -- find_references with the global step as the translator read it from the source
+      -- (Props.C05.refsG_is_refs: for the unchanged source this is `refs`)
+      ("refs", jarr ((List.range n).map fun i =>
+        jarr ((refsG JediModel.Gen.C05.globalStepSameScopeOnly p i).map jnat))),
+      -- _find_global_variables(_find_names(start), x) alone
+      ("globalvars", jarr ((List.range n).map fun i =>
+        match p.occs[i]? with
+        | some o => jarr ((globalVariablesOf JediModel.Gen.C05.globalStepSameScopeOnly p (foundCtxs p i) o.name).map jnat)
+        | none => jarr [])),
       ("var", jarr ((List.range n).map fun i => jnat (varOf p i))),
       ("nameok", jarr ((List.range n).map fun i =>
         match p.occs[i]? with
